@@ -471,7 +471,7 @@ func rC05NonInterference(w *World, r *Report) {
 				n++
 				if c, ok := use.(*ssa.Call); ok {
 					cn := calleeName(c)
-					if (cn == nMatcher || cn == nNewUnknown) && len(c.Call.Args) > 1 && c.Call.Args[1] == ssa.Value(ld) {
+					if sa := stringArgs(c); (cn == nMatcher || cn == nNewUnknown) && len(sa) > 0 && sa[0] == ssa.Value(ld) {
 						ru.OK("typed-text/use", w.IPos(use), "flows into "+cn)
 						continue
 					}
